@@ -159,11 +159,68 @@ def expected_launches(prog):
     return n + used
 
 
-def run_scenario(name, ch):
+def visible_lines():
+    """lines of supp/remote.py whose statement mentions self or one of the shared/patched globals;
+    all other lines only compute on locals and commute with every step of every other thread"""
+    import ast
+    src = open(REMOTE_FILE).read()
+    tree = ast.parse(src)
+    shared = {'self', 'Popen', 'Client', 'time', 'Thread', 'Lock'}
+    vis = set()
+    for node in ast.walk(tree):
+        if isinstance(node, ast.stmt) and not isinstance(node, (ast.FunctionDef, ast.ClassDef, ast.If, ast.While, ast.For, ast.Try, ast.With)):
+            names = {n.id for n in ast.walk(node) if isinstance(n, ast.Name)}
+            if names & shared:
+                for ln in range(node.lineno, node.end_lineno + 1):
+                    vis.add((REMOTE_FILE, ln))
+        elif isinstance(node, (ast.If, ast.While, ast.With)):
+            hdr = node.test if hasattr(node, 'test') else node.items[0].context_expr
+            names = {n.id for n in ast.walk(hdr) if isinstance(n, ast.Name)}
+            if names & shared:
+                vis.add((REMOTE_FILE, node.lineno))
+    return vis
+
+
+_VIS = None
+
+
+def _simple(v):
+    if v is None or isinstance(v, (bool, int, float, str)):
+        return repr(v)[:40]
+    return type(v).__name__
+
+
+def run_scenario(name, ch, stateful=False):
     sc = SCENARIOS[name]
     world = World(sc.get('client_fail', 0))
-    s = Sched(ch, [REMOTE_FILE])
     results = []
+    box = {}
+
+    def state_fn(s, me):
+        """everything the future of the run depends on (for state matching in the unbounded search)"""
+        env = box.get('env')
+        ths = []
+        for t in s.threads:
+            stack = []
+            f = t.get('frame')
+            while f is not None and not t['done']:
+                if f.f_code.co_filename == REMOTE_FILE:
+                    stack.append((f.f_code.co_name, f.f_lineno, tuple(sorted((k, _simple(v)) for k, v in f.f_locals.items() if k != 'self'))))
+                f = f.f_back
+            ths.append((t['name'].split('.')[0].rstrip('0123456789'), t['done'], t['started'] if 'started' in t else None, tuple(stack), t['exc'] is not None))
+        pt = getattr(env, 'prepare_thread', None)
+        conn = getattr(env, 'conn', None)
+        lock = getattr(env, 'prepare_lock', None)
+        shared = (None if pt is None else (pt.info is not None, bool(pt.info and pt.info['done'])),
+                  None if conn is None else (conn.closed, len(conn.q)), getattr(lock, 'owner', None),
+                  tuple((p.conn is not None, p.conn is not None and p.conn.closed, p.got_close) for p in world.procs),
+                  world.attempts, world.time.now, tuple(sorted(map(str, results))), me['tid'])
+        return hash((tuple(ths), shared))
+
+    global _VIS
+    if stateful and _VIS is None:
+        _VIS = visible_lines()
+    s = Sched(ch, [REMOTE_FILE], state_fn=state_fn if stateful else None, visible=_VIS if stateful else None)
 
     saved = (subprocess.Popen, mpc.Client, R.Lock, R.Thread, R.time)
     subprocess.Popen, mpc.Client = world.popen, world.client
@@ -172,6 +229,7 @@ def run_scenario(name, ch):
     R.time = world.time
     try:
         env = R.Environment()
+        box['env'] = env
 
         def do(prog, who):
             for st in prog:
